@@ -16,6 +16,10 @@ RULE = ('Every supported protocol version (enumerated from the version '
         'must not depend on the order (T4). The remaining known versions are '
         'evaluated and reported as labels only. Non-trivial: (version, '
         'table) with >= 2 classes; distinct by (version, table).')
+RULE += (' ' +
+         'Round 11: every table is computed again in a process where an '
+         'application has defined (not registered) a subclass of every '
+         'library packet class; tables may contain library classes only. ')
 LEVEL_TEXT = ('Complete enumeration of the finite configuration space '
               '(supported versions x states x directions) with an '
               'injectivity/totality oracle, plus sampled order permutations.')
